@@ -416,7 +416,7 @@ def check(rep: Report, tier: str, seed: int) -> None:
                               + json.dumps(_ser(case))[:500])
         rep.extra["correspondence_disagreements"] = dis
         rep.extra["exactness"] = "bit-exact (0 ulp, sign of zero ignored) for every entry of Omega, delta, phi; error kinds equal"
-    if rep.broken and not rep.failing:
+    if rep.broken and not rep.unknown_failing():
         search(rep, seed, 1500 if tier == "quick" else 20000)
 
 
